@@ -14,7 +14,7 @@ EXPLANATION = (
     "`back().tick == tick` edge, None + Err otherwise; add_snap diffs against back() iff delta_tick.is_some().  R3 (Manager): "
     "every message goes receiver -> temp_delta.read -> storage.add_delta, and storage is not touched when the receiver or the "
     "delta reader returned an error.  R4: panic sites reachable from Storage::* / Manager::* / DeltaReceiver::* are discharged or "
-    "reviewed.  R5: the receiver refuses a duplicated part before inserting it (the reviewed assert rests on it; shared with C12 R3).  Not decided: item-for-item equality over all histories of losses (history level)."
+    "reviewed.  R6: the comparisons Storage decides on carry their exact operators (newest >= tick refuses; base lookup for every tick >= 0; strictly older snapshots dropped; crc != computed refuses; adoption on equality).  R5: the receiver refuses a duplicated part before inserting it (the reviewed assert rests on it; shared with C12 R3).  Not decided: item-for-item equality over all histories of losses (history level)."
 )
 ASSUMPTIONS = ["the sender follows the storage API (set_delta_tick before add_snap)", "reviewed table lines confirmed by reading the code"]
 TABLES = ["snapshot", "packer", "buffer", "common", "gamenet", "looptable", "postfix"]
@@ -27,6 +27,7 @@ def run(ctx, rep):
     add_delta(ctx.prog, rep)
     delta_tick(ctx.prog, rep)
     manager(ctx.prog, rep)
+    exact_relations(ctx.prog, rep)
     # the reviewed `assert!(parts.insert(..).is_none())` of DeltaReceiver::snap rests on the duplicate test in front of it
     from .C12 import completion
     from ..report import Report
@@ -218,3 +219,92 @@ def manager(prog, rep):
         calls = [(t.get("callee") or "") for _, t in m.calls()]
         ok = any(c.endswith("DeltaReceiver::" + fn) for c in calls) and any(c.endswith("ManagerInner::handle_msg") for c in calls)
         rep.ob(rule, "Manager::%s goes receiver -> handle_msg" % fn, ok, "calls: %s" % [c.rsplit("::", 2)[-2:] for c in calls], m.loc())
+
+
+def _closure_of(ir, bi, t):
+    e = ir.call_expr(bi, t)
+    for a in e[2]:
+        for x in walk(a):
+            if isinstance(x, tuple) and x and x[0] == "agg" and x[1] == "closure":
+                return x[2]
+    return None
+
+
+def exact_relations(prog, rep):
+    """R6: the comparisons Storage decides on, with their exact operators (an operator sweep showed that presence and
+    dominance alone let `>=` -> `>`, `<` -> `<=`, `!=` -> `==` through):
+    add_delta refuses a tick that is not newer than the newest stored one (`newest >= tick`); a base is looked up for every
+    delta_tick >= 0 (0 included) and the empty snapshot is the base only for negative ones; snapshots strictly older than the base
+    (`s.tick < base`) are dropped, never the base itself; the checksum refusal is `crc != computed`.  set_delta_tick: no base for
+    tick < 0 only, the same `<` when dropping, and `==` when adopting."""
+    from .common import exact_clauses, _txt
+    from .C12 import _stored_op_param
+    from ..bits import BitEval, Unsupported
+    from ..guards import Reasoner, Lin
+    rule = "R6-exact-relations"
+    be = BitEval(prog)
+    captured = lambda x: any(isinstance(y, tuple) and y and y[0] == "arg" and y[1] == 0 for y in walk(x))
+
+    def closure_op(cid):
+        try:
+            ce, rb = be.ret_expr(cid)
+        except Unsupported:
+            return None, None
+        neg = False
+        e = ce
+        while e[0] == "un" and e[1] == "Not":
+            e, neg = e[2], not neg
+        if e[0] == "bin" and e[1] in ("Eq", "Ne"):
+            op = e[1]
+            if neg:
+                op = "Ne" if op == "Eq" else "Eq"
+            return op, ce
+        return _stored_op_param(ce, captured), ce
+
+    for fn, tickarg in (("add_delta", "delta_tick"), ("set_delta_tick", "tick")):
+        b = prog.one(ST + fn)
+        ir = IR(b)
+        rs = Reasoner(ir, prog)
+        # (1) position(|s| s.tick < base): strictly older snapshots are dropped
+        pos = [(bi, t) for bi, t in b.calls() if (t.get("callee") or "").endswith("::position")]
+        rep.floor(rule, len(pos), 1, "%s: position(..) over the stored snapshots" % fn)
+        for bi, t in pos:
+            cid = _closure_of(ir, bi, t)
+            op, ce = closure_op(cid) if cid else (None, None)
+            rep.ob(rule, "%s | snapshots strictly older than the base are dropped" % fn, op == "Lt",
+                   "position(|s| s.tick < base)" if op == "Lt" else
+                   "the drop predicate is `s.tick %s base`: %s" % ({"Le": "<=", "Gt": ">", "Ge": ">="}.get(op, "?"),
+                   "the base snapshot itself is dropped and every delta against it fails" if op == "Le" else "wrong snapshots are dropped"), b.loc(t.get("ln")))
+            # (2) a base is looked up for every non-negative tick, 0 included
+            facts, nes = rs.facts_at(bi)
+            argi = [i for i in range(b.argc) if (ir.lname(i + 1) or "") == tickarg]
+            tv = rs.lin(("arg", argi[0], tickarg)) if argi else None
+            ge0 = tv is not None and rs.prove(Lin.const(0).sub(tv), facts)
+            ge1 = tv is not None and rs.prove(Lin.const(1).sub(tv), facts)
+            rep.ob(rule, "%s | a base is looked up for every %s >= 0" % (fn, tickarg), ge0 and not ge1,
+                   "the lookup is reached exactly for %s >= 0" % tickarg if ge0 and not ge1 else
+                   ("tick 0 is treated like `no base`: a delta against the snapshot of tick 0 is applied to the empty snapshot" if ge1 else
+                    "the lookup is not guarded by %s >= 0" % tickarg), b.loc(t.get("ln")))
+    a = prog.one(ST + "add_delta")
+    air = IR(a)
+    # (3) OldDelta: newest stored tick >= tick
+    table = [("the newest stored tick is not older than the delta's tick",
+              lambda x: "front" in _txt(x), lambda y: y[0] == "arg", "Ge", 1)]
+    exact_clauses(rep, rule, "add_delta", a, air, table, floor=1)
+    # (4) InvalidCrc: crc != computed
+    crcs = [(bi, t) for bi, t in a.calls() if (t.get("callee") or "") == "std::option::Option::map" and "crc" in show(strip_sites(air.term_operand(bi, t["args"][0])))]
+    rep.floor(rule, len(crcs), 1, "add_delta: crc.map(..)")
+    for bi, t in crcs:
+        cid = _closure_of(air, bi, t)
+        op, ce = closure_op(cid) if cid else (None, None)
+        rep.ob(rule, "add_delta | checksum refusal is `announced != computed`", op == "Ne",
+               "crc.map(|crc| crc != new_snap.crc())" if op == "Ne" else "the checksum test is `%s`: matching snapshots are refused and mismatching ones acknowledged" % op, a.loc(t.get("ln")))
+    # (5) set_delta_tick adopts the base on equality
+    sd = prog.one(ST + "set_delta_tick")
+    sir = IR(sd)
+    maps = [(bi, t) for bi, t in sd.calls() if (t.get("callee") or "") == "std::option::Option::map" and "back" in show(strip_sites(sir.term_operand(bi, t["args"][0])))]
+    for bi, t in maps:
+        cid = _closure_of(sir, bi, t)
+        op, ce = closure_op(cid) if cid else (None, None)
+        rep.ob(rule, "set_delta_tick | base adopted only if its tick equals the acknowledged one", op == "Eq",
+               "snaps.back().map(|s| s.tick == tick)" if op == "Eq" else "the adoption test is `%s`" % op, sd.loc(t.get("ln")))
